@@ -67,11 +67,16 @@ def atom_coq(a):
 
 
 def val_json(t):
-    """tensor -> exact JSON value (scalar atom, or list of atoms); anything else is described as text"""
+    """tensor -> exact JSON value (scalar atom, or list of atoms); a 1-d WeightedTensor with boolean weights ->
+    {"wv": [atoms of .value], "ww": [0/1 of .weight]} (value AND weight, entry by entry); anything else is described as text"""
     if t is None:
         return None
     if hasattr(t, "weighted_value"):
-        t = t.weighted_value
+        import torch
+        v, w = t.value, t.weight
+        if w is None or v.ndim != 1 or w.dtype != torch.bool or w.shape != v.shape:
+            return {"shape": list(v.shape), "weighted": True, "weight": None if w is None else str(w.dtype)}
+        return {"wv": [atom_json(x) for x in v.tolist()], "ww": [int(bool(x)) for x in w.tolist()]}
     if t.ndim == 0:
         return atom_json(t.item())
     if t.ndim == 1:
@@ -79,7 +84,18 @@ def val_json(t):
     return {"shape": list(t.shape)}
 
 
-def val_coq(v):
+def is_weighted_json(v):
+    return isinstance(v, dict) and "wv" in v
+
+
+def val_coq(v, W=False):
+    """Coq literal of a JSON value: an `xval` (StateExec.v), or with W a `wval` (StateWExec.v: plain values wrapped in WPlain,
+    weighted values as `WWt values weights`)"""
+    if W:
+        if is_weighted_json(v):
+            return ("(WWt [" + "; ".join(atom_coq(a) for a in v["wv"]) + "] ["
+                    + "; ".join("true" if b else "false" for b in v["ww"]) + "])")
+        return f"(WPlain {val_coq(v)})"
     if isinstance(v, dict):
         return "XBad"
     if isinstance(v, list) and not (len(v) == 2 and v[0] == "off"):
@@ -91,9 +107,9 @@ def is_vec(v):
     return isinstance(v, list) and not (len(v) == 2 and v[0] == "off")
 
 
-def out_coq(o):
+def out_coq(o, W=False):
     if o[0] == "ok":
-        return f"(Ok {val_coq(o[1])})"
+        return f"(Ok {val_coq(o[1], W)})"
     if o[0] == "okb":
         return f"(OkB {'true' if o[1] else 'false'})"
     if o[0] == "done":
@@ -105,7 +121,17 @@ def out_coq(o):
 
 
 class ToyGraph:
-    """nodes: list of dicts  {name, kind: hyper|pop|ind|linked, value (hyper), parents [names], fun: (affine|sum|log2, c0, [cs])}"""
+    """nodes: list of dicts  {name, kind: hyper|pop|ind|linked, value (hyper), parents [names], fun: (affine|sum|log2, c0, [cs])}
+
+    Weighted vocabulary (one parent each; `W` = a parent that is a WeightedTensor):
+      ["wthr", c0, [c], thr]   WeightedTensor(c0 + c*x, weight=(x >= thr))    the weight is COMPUTED from the parent
+      ["wmap", c0, [c]]        WeightedTensor(c0 + c*W.value, W.weight)
+      ["wval", c0, [c]]        c0 + c * W.weighted_value                       per individual, uses the weight
+      ["wwgt", c0, [c]]        c0 + c * W.weight.to(W.value.dtype)             per individual, the weight itself
+      ["wsum", c0, [c]]        c0 + c * W.weighted_value.sum()                 aggregate that uses the weight
+      ["wcnt", c0, [c]]        c0 + c * W.weight.sum()                         aggregate of the weight"""
+
+    W_FUNS = ("wthr", "wmap", "wval", "wwgt", "wsum", "wcnt")
 
     def __init__(self, nodes, n_ind, dtype="int64"):
         self.nodes = nodes
@@ -132,9 +158,18 @@ class ToyGraph:
         nd = self.by_name[name]
         if nd["kind"] == "ind":
             return True
-        if nd["kind"] != "linked" or nd["fun"][0] == "sum":
+        if nd["kind"] != "linked" or nd["fun"][0] in ("sum", "wsum", "wcnt"):
             return False
         return any(self.axis(p) for p in nd["parents"])
+
+    @property
+    def weighted(self):
+        """does the graph use the weighted vocabulary (Coq instance: State/StateWExec.v instead of State/StateExec.v)"""
+        return any(nd["kind"] == "linked" and nd["fun"][0] in self.W_FUNS for nd in self.nodes)
+
+    def weighted_node(self, name):
+        nd = self.by_name[name]
+        return nd["kind"] == "linked" and nd["fun"][0] in ("wthr", "wmap")
 
     def build(self):
         """Real DAG; node order = the implementation's topological order."""
@@ -148,9 +183,17 @@ class ToyGraph:
             elif nd["kind"] in ("pop", "ind"):
                 d[nd["name"]] = DataVariable()
             else:
-                kind, c0, cs = nd["fun"]
+                kind, c0, cs = nd["fun"][:3]
                 ps = nd["parents"]
-                if kind == "affine":
+                if kind in self.W_FUNS:
+                    p, c = ps[0], cs[0]
+                    body = {"wthr": f"WeightedTensor({c0} + ({c}) * {p}, weight=({p} >= {nd['fun'][3] if kind == 'wthr' else 0}))",
+                            "wmap": f"WeightedTensor({c0} + ({c}) * {p}.value, {p}.weight)",
+                            "wval": f"{c0} + ({c}) * {p}.weighted_value",
+                            "wwgt": f"{c0} + ({c}) * {p}.weight.to({p}.value.dtype)",
+                            "wsum": f"{c0} + ({c}) * {p}.weighted_value.sum()",
+                            "wcnt": f"{c0} + ({c}) * {p}.weight.sum()"}[kind]
+                elif kind == "affine":
                     body = " + ".join([str(c0)] + [f"({c}) * {p}" for c, p in zip(cs, ps)])
                 elif kind == "sum":
                     body = " + ".join([str(c0)] + [f"({c}) * {p}.sum()" for c, p in zip(cs, ps)])
@@ -159,7 +202,8 @@ class ToyGraph:
                 else:
                     raise ValueError(kind)
                 ns = {}
-                exec(f"def f(*, {', '.join(ps)}):\n    return {body}\n", {"torch": torch}, ns)
+                from leaspy.utils.weighted_tensor import WeightedTensor
+                exec(f"def f(*, {', '.join(ps)}):\n    return {body}\n", {"torch": torch, "WeightedTensor": WeightedTensor}, ns)
                 d[nd["name"]] = LinkedVariable(ns["f"])
         self.dag = VariablesDAG.from_dict(d)
         self.order = list(self.dag.sorted_variables_names)
@@ -173,37 +217,87 @@ class ToyGraph:
         return [n for n in self.order if self.by_name[n]["kind"] in ("pop", "ind")]
 
     def coq(self):
-        """`list nspec` literal; ancestors / children are the ones the implementation computed."""
+        """`list nspec` literal (`list wspec` of State/StateWExec.v when the graph uses the weighted vocabulary);
+        ancestors / children are the ones the implementation computed."""
         out = []
+        W = self.weighted
         for name in self.order:
             nd = self.by_name[name]
             linked = nd["kind"] == "linked"
-            hyper = f"(Some {val_coq(nd['value'])})" if nd["kind"] == "hyper" else "None"
+            hyper = f"(Some {val_coq(nd['value'], W)})" if nd["kind"] == "hyper" else "None"
             if linked:
-                kind, c0, cs = nd["fun"]
+                kind, c0, cs = nd["fun"][:3]
                 # parents in the order of the coefficient list
                 ps = [self.index[p] for p in nd["parents"]]
                 zl = "[" + "; ".join(f"({c})%Z" for c in cs) + "]"
-                fun = {"affine": f"(NAffine ({c0})%Z {zl})", "sum": f"(NSum ({c0})%Z {zl})", "log2": "NLog2"}[kind]
+                if kind in self.W_FUNS:
+                    con = {"wthr": "WThr", "wmap": "WMap", "wval": "WVal", "wwgt": "WWgt", "wsum": "WSum", "wcnt": "WCnt"}[kind]
+                    fun = f"({con} ({c0})%Z ({cs[0]})%Z" + (f" ({nd['fun'][3]})%Z)" if kind == "wthr" else ")")
+                else:
+                    fun = {"affine": f"(NAffine ({c0})%Z {zl})", "sum": f"(NSum ({c0})%Z {zl})", "log2": "NLog2"}[kind]
+                    if W:
+                        fun = f"(WOld {fun})"
                 # the model wants parents as a list; keep coefficient order, the check of WF does not need sortedness
             else:
-                ps, fun = [], "NLog2"
+                ps, fun = [], ("(WOld NLog2)" if W else "NLog2")
             impl_parents = sorted(self.index[p] for p in self.dag.direct_ancestors[name])
             if sorted(ps) != impl_parents:
                 raise AssertionError(f"parents of {name}: harness {ps} vs implementation {impl_parents}")
             anc = [self.index[a] for a in self.dag.sorted_ancestors[name]]
             desc = [self.index[c] for c in self.dag.sorted_children[name]]
             lst = lambda l: "[" + "; ".join(str(x) for x in l) + "]"
-            out.append(f"mkN {'true' if linked else 'false'} {'true' if nd['kind'] in ('pop', 'ind') else 'false'} {hyper} "
+            out.append(f"{'mkW' if W else 'mkN'} {'true' if linked else 'false'} {'true' if nd['kind'] in ('pop', 'ind') else 'false'} {hyper} "
                        f"{'true' if self.axis(name) else 'false'} {lst(ps)} {lst(anc)} {lst(desc)} {fun}")
         return "[" + ";\n    ".join(out) + "]"
 
 
-def gen_graph(rng, n_nodes=None, n_ind=None, dtype=None, with_log=False):
+def add_weighted_nodes(rng, G_nodes, n_ind, dtype, names_left):
+    """Append nodes of the weighted vocabulary to a generated node list: 1-2 `wthr` nodes on parents carrying the individual axis
+    (threshold inside the range of the assigned values, so that proposals flip weights), each followed by 1-3 consumers
+    (`wmap` -> its own consumers, `wval`, `wwgt`, `wsum`, `wcnt`), sometimes an affine / aggregating node on top of plain consumers."""
+    tmp = ToyGraph(G_nodes, n_ind, dtype)
+    axis = [nd["name"] for nd in G_nodes if tmp.axis(nd["name"])]
+    if not axis or len(names_left) < 2:
+        return False
+    coefs = [c for c in range(-4, 6) if c != 0]
+    plain_out = []
+
+    def new(nd):
+        G_nodes.append(nd)
+        return nd["name"]
+
+    def consumers(w, depth):
+        for _ in range(rng.randint(1, 3)):
+            if not names_left:
+                return
+            kind = rng.choice(["wval", "wval", "wwgt", "wsum", "wsum", "wcnt", "wcnt", "wmap"])
+            if kind == "wmap" and (depth > 0 or len(names_left) < 2):
+                kind = "wsum"
+            n = new(dict(name=names_left.pop(), kind="linked", parents=[w], fun=[kind, rng.randint(-3, 3), [rng.choice(coefs)]]))
+            if kind == "wmap":
+                consumers(n, depth + 1)
+            else:
+                plain_out.append((n, kind in ("wval", "wwgt")))
+    for _ in range(rng.choice([1, 1, 2])):
+        if len(names_left) < 2:
+            break
+        inds = [nd["name"] for nd in G_nodes if nd["kind"] == "ind"]
+        x = rng.choice(inds) if (inds and rng.random() < 0.6) else rng.choice(axis)
+        w = new(dict(name=names_left.pop(), kind="linked", parents=[x],
+                     fun=["wthr", rng.randint(-3, 3), [rng.choice(coefs)], rng.randint(-4, 4)]))
+        consumers(w, 0)
+    if plain_out and names_left and rng.random() < 0.5:
+        ps = [n for n, _ in rng.sample(plain_out, min(len(plain_out), rng.randint(1, 2)))]
+        new(dict(name=names_left.pop(), kind="linked", parents=ps,
+                 fun=[rng.choice(["affine", "sum"]), rng.randint(-2, 2), rng.sample(coefs, len(ps))]))
+    return True
+
+
+def gen_graph(rng, n_nodes=None, n_ind=None, dtype=None, with_log=False, weighted=False):
     """Random toy DAG: 2-9 nodes; hyper-parameters, population scalars, per-individual vectors, affine / aggregating
     (/ log2) derived nodes with distinct non-zero coefficients; several roots, late roots (random names decide the
     topological order), diamonds (parents drawn among all earlier nodes)."""
-    n_nodes = n_nodes or rng.randint(2, 9)
+    n_nodes = n_nodes or (rng.randint(2, 6) if weighted else rng.randint(2, 9))
     n_ind = n_ind or rng.choice([1, 2, 2, 3, 3, 4])
     dtype = dtype or rng.choice(["int64", "float64"])
     if with_log:
@@ -213,7 +307,7 @@ def gen_graph(rng, n_nodes=None, n_ind=None, dtype=None, with_log=False):
     nodes = []
     coefs = [c for c in range(-5, 8) if c not in (0,)]
     for j in range(n_indep):
-        kind = rng.choice(["hyper", "pop", "ind", "ind", "pop"]) if j else rng.choice(["pop", "ind", "ind"])
+        kind = rng.choice(["hyper", "pop", "ind", "ind", "pop"]) if j else ("ind" if weighted else rng.choice(["pop", "ind", "ind"]))
         nd = dict(name=names[j], kind=kind, parents=[])
         if kind == "hyper":
             nd["value"] = rng.randint(-4, 6)
@@ -249,6 +343,10 @@ def gen_graph(rng, n_nodes=None, n_ind=None, dtype=None, with_log=False):
             free = [c for c in coefs if c not in tgt["fun"][2]]
             tgt["parents"].append(nd["name"])
             tgt["fun"][2].append(rng.choice(free))
+    if weighted:
+        left = [n for n in NAME_POOL if n not in names]
+        rng.shuffle(left)
+        add_weighted_nodes(rng, nodes, n_ind, dtype, left)
     return ToyGraph(nodes, n_ind, dtype)
 
 
@@ -275,6 +373,20 @@ F2_GRAPH = ToyGraph([
 ], 2, "float64")
 F2_OPS = [["mode", 0, "REF"], ["set", 0, "x", [1, 2]], ["get", 0, "y"], ["put", 0, "x", None, [-2, 2], True], ["get", 0, "y"],
           ["revmask", 0, [True, False]], ["get", 0, "y"]]
+
+
+# a derived WeightedTensor whose WEIGHT depends on the assigned per-individual variable (the shape of the seeded defect
+# "_select keeps one side's weight"; Coq: StateWExec.onset_nodes): w = WeightedTensor(x, weight=(x >= 3)), v = w.weighted_value,
+# n = w.weight.sum(), s = w.weighted_value.sum()
+ONSET_GRAPH = ToyGraph([
+    dict(name="a", kind="ind", parents=[]),
+    dict(name="b", kind="linked", parents=["a"], fun=["wthr", 0, [1], 3]),
+    dict(name="c", kind="linked", parents=["b"], fun=["wval", 0, [1]]),
+    dict(name="d", kind="linked", parents=["b"], fun=["wcnt", 0, [1]]),
+    dict(name="e", kind="linked", parents=["b"], fun=["wsum", 0, [1]]),
+], 4, "int64")
+ONSET_OPS = [["mode", 0, "REF"], ["set", 0, "a", [1, 5, 2, 7]], ["get", 0, "c"], ["put", 0, "a", None, [4, -4, 4, -4], True], ["get", 0, "c"],
+             ["revmask", 0, [False, True, True, False]], ["get", 0, "b"], ["get", 0, "d"], ["get", 0, "e"]]
 
 
 # ----------------------------------------------------------------------------- which __setitem__ is under test
@@ -358,7 +470,10 @@ def detect_revert_mix_variant():
           and calls `torch.where` (directly or through the module-level helper `_select`, whose body must itself call
           `torch.where` on the values and multiply nothing);
       (b) probes on a real State: y = log2 x, x = [1,2] -> [-1,4], individual 0 rejected (cached y[0]: 0 or NaN), and
-          c = 2*x, x = [1,2] -> [inf,3], individual 0 rejected (cached c[0]: 2 or NaN)."""
+          c = 2*x, x = [1,2] -> [inf,3], individual 0 rejected (cached c[0]: 2 or NaN);
+      (c) "where" only: the helper builds a WeightedTensor whose weight is itself a `torch.where(...)`, and on the probe
+          w = WeightedTensor(x, weight=(x >= 3)), x = [1,5,2,7] -> [5,1,6,3], individuals 1 and 2 rejected, the cached w has
+          the values [5,5,2,3] AND the weights [1,1,0,1] (each row from its own side)."""
     import ast
     import inspect
     import math
@@ -391,6 +506,16 @@ def detect_revert_mix_variant():
                     hfn = ast.parse(textwrap.dedent(inspect.getsource(helper))).body[0]
                     _, hmult, hcalls = marks(hfn)
                     ok = ("torch.where" in hcalls) and not hmult
+                    # a WeightedTensor built with an explicit weight must take that weight from a selection too
+                    # (`torch.where(mask, old_weight, cur_weight)`), not from one side
+                    wt = [n for n in ast.walk(hfn) if isinstance(n, ast.Call) and ast.unparse(n.func) == "WeightedTensor"
+                          and (len(n.args) >= 2 or any(k.arg == "weight" for k in n.keywords))
+                          and any(isinstance(r, ast.Return) and n in ast.walk(r) for r in ast.walk(hfn))]
+                    for n in wt:
+                        wexpr = n.args[1] if len(n.args) >= 2 else next(k.value for k in n.keywords if k.arg == "weight")
+                        if not (isinstance(wexpr, ast.Call) and ast.unparse(wexpr.func) == "torch.where"):
+                            ok = False
+                            detail["source_weight_not_selected"] = ast.unparse(n)
             src = "where" if ok else None
         detail["source"] = src
         detail["source_marks"] = dict(multiplications_by_mask=blend[:4], selection_calls=selects)
@@ -424,8 +549,28 @@ def detect_revert_mix_variant():
         detail["probe_inf_value"] = [atom_json(c0), atom_json(c1)]
     except Exception as e:  # noqa
         detail["probe_error"] = f"{type(e).__name__}: {e}"
+    # (c) a derived WeightedTensor whose weight depends on the assigned variable: both components must be selected row by row
+    detail["probe_weight"] = None
+    try:
+        G3 = ToyGraph.from_json(ONSET_GRAPH.to_json())
+        G3.build()
+        st = State(G3.dag)
+        st.auto_fork_type = StateForkType.REF
+        st["a"] = G3.tensor([1, 5, 2, 7])
+        st["b"]
+        st.put("a", G3.tensor([4, -4, 4, -4]), accumulate=True)
+        st["b"]
+        st.revert(torch.tensor([False, True, True, False]))
+        got = val_json(st._values["b"])
+        detail["probe_weight_value"] = got
+        if got == {"wv": [5, 5, 2, 3], "ww": [1, 1, 0, 1]}:
+            detail["probe_weight"] = "rows"
+    except Exception as e:  # noqa
+        detail["probe_weight_error"] = f"{type(e).__name__}: {e}"
     views = (detail["source"], detail["probe_log"], detail["probe_inf"])
     mix = views[0] if (views[0] is not None and views[0] == views[1] == views[2]) else None
+    if mix == "where" and detail["probe_weight"] != "rows":
+        mix = None      # selects values but not the weights of a WeightedTensor: neither of the two modelled rules
     detail["mix"] = mix
     return mix, detail
 
@@ -535,6 +680,8 @@ class Session:
         # histories of the F1 shape, measured on the real state whatever the variant: per state, "an assignment was made
         # with auto-fork off while a fork was pending and no forked assignment / clear happened since"
         self.nonfinite_masks = 0      # partial reverts applied while a doubly cached forked entry was inf / NaN
+        self.weighted_masks = 0       # doubly cached WeightedTensor entries met by partial reverts
+        self.weight_flipping_masks = 0   # ... whose weights differ between the forked and the current side
         self.after_unforked = [False]
         self.f1_events = []           # dict(kind: unforked-set-over-pending-fork | revert-after | read-after-revert, step, state, out)
         self._reverted_after = [False]
@@ -700,9 +847,20 @@ class Session:
             # a per-individual revert applied while a doubly cached entry of the fork is not finite: where the blend
             # old*mask + cur*~mask (before fe0cadd) and the selection differ
             stk = self.states[k]
+            fin = lambda x: bool((x.value if hasattr(x, "weighted_value") else x).isfinite().all())
             for c, old in stk._last_fork.items():
                 cur = stk._values[c]
-                if old is not None and cur is not None and not (bool(old.isfinite().all()) and bool(cur.isfinite().all())):
+                if old is not None and cur is not None and (hasattr(old, "weighted_value") or hasattr(cur, "weighted_value")):
+                    # a per-individual revert applied while a doubly cached entry of the fork is a WeightedTensor: `_select` has
+                    # to select the weight row by row too
+                    if "weighted-mask" not in self.taint[k]:
+                        self.taint[k].add("weighted-mask")
+                    self.weighted_masks += 1
+                    if not same_tensor(getattr(old, "weight", None), getattr(cur, "weight", None)):
+                        self.weight_flipping_masks += 1
+            for c, old in stk._last_fork.items():
+                cur = stk._values[c]
+                if old is not None and cur is not None and not (fin(old) and fin(cur)):
                     self.taint[k].add("nonfinite-mask")
                     self.nonfinite_masks += 1
                     break
@@ -775,6 +933,8 @@ class Session:
     # -- Coq literal of the recorded history
     def op_coq(self, op):
         G = self.G
+        W = G.weighted
+        val_coq = lambda v: globals()["val_coq"](v, W)
         kind, k = op[0], op[1]
         b = lambda x: "true" if x else "false"
         if kind == "get":
@@ -800,9 +960,11 @@ class Session:
         raise ValueError(op)
 
     def coq_case(self):
-        """plain histories only (no scoped block, no look): the case of `StateExec.check_case_with`"""
+        """plain histories only (no scoped block, no look): the case of `StateExec.check_case_with` (of
+        `StateWExec.check_wcase_with` when the graph uses the weighted vocabulary)"""
         assert not any(op[0] in ("scoped", "look") for op, _, _ in self.records)
-        h = ";\n    ".join(f"({self.op_coq(op)}, {out_coq(out)}, {'true' if ok else 'false'})" for op, out, ok in self.records)
+        W = self.G.weighted
+        h = ";\n    ".join(f"({self.op_coq(op)}, {out_coq(out, W)}, {'true' if ok else 'false'})" for op, out, ok in self.records)
         return f"({self.G.coq()},\n   [{h}])"
 
     def sop_coq(self, op):
@@ -1022,15 +1184,27 @@ def gen_history(rng, G, malformed=False, length=None, max_states=3, fx=False, sc
             if st._values[n] is None:
                 s.apply(["set", k, n, rand_value(rng, G, n)])
                 continue
+            if G.weighted and ind and rng.random() < 0.75:
+                # weighted graphs: cache per-individual descendants (the weighted nodes among them) BEFORE the proposal too, so that the
+                # decision meets doubly cached WeightedTensor nodes
+                below = [m for m in G.dag.sorted_children[n] if G.axis(m)]
+                for m in rng.sample(below, min(len(below), rng.randint(1, 3))):
+                    s.apply(["get", k, m])
             if ind and rng.random() < 0.3:
                 s.apply(["put", k, n, rng.randrange(G.n_ind), rng.randint(-3, 3), rng.random() < 0.8])
             else:
-                s.apply(["put", k, n, None, rand_value(rng, G, n, True), True])
+                s.apply(["put", k, n, None, rand_value(rng, G, n, not G.weighted), True])     # weighted graphs: moves that cross thresholds
             readable = [m for m in names if G.axis(m)] if (ind and rng.random() < 0.85) else names
+            if G.weighted and ind and rng.random() < 0.75:
+                below = [m for m in G.dag.sorted_children[n] if G.axis(m)]
+                for m in rng.sample(below, min(len(below), rng.randint(1, 3))):
+                    s.apply(["get", k, m])
             for _ in range(rng.randint(0, 3)):
                 if readable:
                     s.apply(["get", k, rng.choice(readable)])
             d = rng.random()
+            if G.weighted and ind and d < 0.35 and rng.random() < 0.6:
+                d = 0.5                 # weighted graphs: more per-individual decisions
             if fork_pending(k):
                 if d < 0.35:
                     s.apply(["revert", k])
